@@ -37,7 +37,7 @@ func init() {
 // Op is one step of an abstract program. Selectors (H, Key) are resolved modulo what exists
 // at run time, so every sub-list of a program is again a valid program.
 type Op struct {
-	K      string `json:"k"`                // begin set del get getr keys commit rollback gc reopen burst delburst txburst
+	K      string `json:"k"`                // begin set del get getr keys commit rollback gc reopen otherdb burst delburst txburst
 	H      int    `json:"h,omitempty"`      // actor selector: 0 = autocommit, else the (H-1 mod n)-th open transaction
 	Last   bool   `json:"last,omitempty"`   // address the most recently begun transaction that is still open
 	Late   bool   `json:"late,omitempty"`   // C13: address an ended transaction instead of an open one
@@ -1013,6 +1013,13 @@ func (w *World) apply(i int, op Op) bool {
 		}
 		w.Stats["gc"]++
 	case "nop":
+	case "otherdb":
+		// another, unrelated database is opened, written and closed by the same process in the middle of
+		// the history ("whatever other database instances the same process has opened before or meanwhile")
+		for _, c := range openOthers(1, filepath.Dir(w.Dir)) {
+			c()
+		}
+		w.Stats["otherdb"]++
 	case "reopen":
 		if err := w.Reopen(); err != nil {
 			w.R.Failf("%s: reopen failed: %v", what, err)
